@@ -103,6 +103,7 @@ fn parse_levels(s: &str) -> Vec<Level> {
                 misuse: false,
                 decls: 0,
                 flaky: false,
+                after_fail: false,
             };
             let cs: Vec<char> = l.chars().collect();
             let mut i = 0;
@@ -120,6 +121,7 @@ fn parse_levels(s: &str) -> Vec<Level> {
                     'a' => lv.abort = true,
                     'm' => lv.misuse = true,
                     'k' => lv.flaky = true,
+                    'x' => lv.after_fail = true,
                     '-' => {}
                     x => panic!("bad level letter {}", x),
                 }
@@ -154,6 +156,11 @@ fn main() {
         _ => vec![Cmp::Exact, Cmp::IgnoreStamp],
     };
     let usemode = get("uses", "all"); // all | both | mix
+    // conv=names: production's convention (input lists are consumed output names; the comparison
+    // looks at consumed names only); multi=1: each job with a consumer in turn becomes a
+    // two-output job "Nk:::Nkx" of which the consumers need only "Nk"
+    let conv = if get("conv", "ids") == "names" { Conv::Names } else { Conv::Ids };
+    let multi = get("multi", "0") == "1";
     let filter = get("filter", "");
     let stride: usize = get("stride", "1").parse().unwrap();
     let spec = ChainSpec {
@@ -193,7 +200,17 @@ fn main() {
                         if idx % stride != (seed as usize) % stride {
                             continue;
                         }
-                        universes.push((format!("n{}k{}e{}u{}", n, kcode, ecode, ucode), g));
+                        if multi {
+                            for j in names(n) {
+                                if !g.downs(&j).is_empty() {
+                                    let mut g2 = g.clone();
+                                    g2.rename_job(&j, &format!("{}:::{}x", j, j));
+                                    universes.push((format!("n{}k{}e{}u{}m{}", n, kcode, ecode, ucode, &j[1..]), g2));
+                                }
+                            }
+                        } else {
+                            universes.push((format!("n{}k{}e{}u{}", n, kcode, ecode, ucode), g));
+                        }
                     }
                 }
             }
@@ -230,7 +247,22 @@ fn main() {
                 };
                 body[i..j].parse().unwrap()
             };
-            let g = graph_from_codes(num('n', Some('k')), num('k', Some('e')), num('e', Some('u')), num('u', None));
+            let (body, m) = match body.find('m') {
+                Some(i) => (&body[..i], Some(body[i + 1..].to_string())),
+                None => (body, None),
+            };
+            let num = |a: char, b: Option<char>| -> usize {
+                let i = body.find(a).unwrap() + 1;
+                let j = match b {
+                    Some(b) => body[i..].find(b).unwrap() + i,
+                    None => body.len(),
+                };
+                body[i..j].parse().unwrap()
+            };
+            let mut g = graph_from_codes(num('n', Some('k')), num('k', Some('e')), num('e', Some('u')), num('u', None));
+            if let Some(k) = m {
+                g.rename_job(&format!("N{}", k), &format!("N{}:::N{}x", k, k));
+            }
             universes.push((uid.clone(), g));
         }
         "one" => {
@@ -309,7 +341,7 @@ fn main() {
                     break;
                 }
                 let (uid, g) = &universes[i];
-                run_universe(&mut wr, &mut stats, &spec, g, Conv::Ids, &cmps, uid);
+                run_universe(&mut wr, &mut stats, &spec, g, conv, &cmps, uid);
             }
             wr.close();
             results.lock().unwrap().push((stats, wr.files.clone(), wr.total_lines));
